@@ -707,6 +707,7 @@ class Graph:
 
 READ_OPS = ('GetV', 'GetU', 'GetRef', 'Coll', 'CollB', 'LColl', 'Find', 'FindU', 'SelAll')
 END_OPS = ('Commit', 'End', 'EndExc', 'Rollback')
+CONTROL_OPS = ('Begin', 'Flush', 'Commit', 'Rollback', 'End', 'EndExc')
 
 
 def mismatch_category(ev_key, outs_expected, out, ret):
@@ -791,6 +792,115 @@ class Driver:
                     return False
         return True
 
+    def choose(self, acts, focus, last_kind, rng):
+        """Weighted choice of the next action: prefer transitions not replayed yet, actions on the behaviour's
+        focus objects, and a read right after a modification."""
+        g = self.g
+        fa, fb = focus
+        keys = sorted(acts)
+        weights = []
+        for k in keys:
+            op, e, kk, x, y = k
+            w = 1.0
+            if op in CONTROL_OPS:
+                w = 2.0
+            else:
+                ids_a, ids_b = [], []
+                if op == 'Create':
+                    (ids_a if e == 'A' else ids_b).append(kk)
+                    if e == 'B' and y:
+                        ids_a.append(y)
+                elif op in ('SetV', 'GetV', 'Coll', 'LColl', 'CollClear'):
+                    ids_a.append(kk)
+                elif op in ('SetU', 'GetU', 'GetRef', 'CollB'):
+                    ids_b.append(kk)
+                elif op == 'SetRef':
+                    ids_b.append(kk)
+                    if x:
+                        ids_a.append(x)
+                elif op == 'SetMany':
+                    ids_b.append(kk)
+                    if y:
+                        ids_a.append(y)
+                elif op in ('CollAdd', 'CollRemove', 'LAdd', 'LRemove'):
+                    ids_a.append(kk)
+                    ids_b.append(x)
+                elif op in ('Delete', 'Find'):
+                    (ids_a if e == 'A' else ids_b).append(kk)
+                if all(i == fa for i in ids_a) and all(i == fb for i in ids_b):
+                    w *= 6.0
+                if last_kind == 'write' and op in READ_OPS:
+                    w *= 2.5
+            if any((u, v) not in g.visited for u, vs in acts[k].items() for v in vs):
+                w *= 2.0
+            weights.append(w)
+        return rng.choices(keys, weights=weights, k=1)[0]
+
+    def free_reads(self, ad, belief, key, when):
+        """Ask the reads that concern the objects of call `key` without leaving the specification state: the
+        expected answers are the state's `view` (a TLA+ function of cur). Only where reads cannot fail."""
+        view = self.agreed(belief, 'view')
+        if view is None or not self.can_project(belief):
+            return 0
+        w = self.world
+        op, e, kk, x, y = key
+        ids_a, ids_b = set(), set()
+        if op == 'Create':
+            (ids_a if e == 'A' else ids_b).add(kk)
+            if e == 'B' and y:
+                ids_a.add(y)
+        elif op in ('SetV', 'Coll', 'LColl', 'CollClear', 'GetV'):
+            ids_a.add(kk)
+        elif op in ('SetU', 'GetU', 'GetRef', 'CollB'):
+            ids_b.add(kk)
+        elif op == 'SetRef':
+            ids_b.add(kk)
+            ids_a.add(x)
+        elif op == 'SetMany':
+            ids_b.add(kk)
+            ids_a.add(y)
+        elif op in ('CollAdd', 'CollRemove', 'LAdd', 'LRemove'):
+            ids_a.add(kk)
+            ids_b.add(x)
+        elif op == 'Delete':
+            (ids_a if e == 'A' else ids_b).add(kk)
+        liveA, liveB = set(view['liveA']), set(view['liveB'])
+        if op in ('Delete', 'SetRef', 'SetMany', 'CollClear', 'CollRemove', 'Create'):
+            # relatives may be affected (cascade, unlinking, one-to-one rivals)
+            ids_a |= liveA
+            ids_b |= liveB
+        n = 0
+
+        def expect(what, got, want):
+            if set(got) != set(want):
+                raise Mismatch('read', '%s %s%r: %s is %r, the specification says %r' % (when, op, key[1:], what, sorted(got), sorted(want)))
+        for a in sorted(ids_a & liveA):
+            evr = {'e': 'A', 'k': a, 'x': 0, 'y': 0}
+            expect('A[%d].bs' % a if w.rel != 'o2o' else 'A[%d].b' % a, ad.do_Coll(evr), fmap(view['kids'])[a])
+            expect('A[%d].v' % a, ad.do_GetV(evr), {fmap(view['v'])[a]})
+            if w.rel == 'mix':
+                expect('A[%d].ls' % a, ad.do_LColl(evr), fmap(view['links'])[a])
+            n += 2
+        for b in sorted(ids_b & liveB):
+            evr = {'e': 'B', 'k': b, 'x': 0, 'y': 0}
+            expect('B[%d].u' % b, ad.do_GetU(evr), {fmap(view['u'])[b]})
+            if w.rel != 'm2m':
+                expect('B[%d].a' % b, ad.do_GetRef(evr), {fmap(view['ref'])[b]})
+            if w.links:
+                expect('B[%d].as_' % b, ad.do_CollB(evr), fmap(view['linksB'])[b])
+            n += 2
+        for a in sorted(ids_a - liveA):
+            expect('A.get(id=%d)' % a, ad.do_Find({'e': 'A', 'k': a}), {0})
+        for b in sorted(ids_b - liveB):
+            expect('B.get(id=%d)' % b, ad.do_Find({'e': 'B', 'k': b}), {0})
+        byu = view['byU']
+        byu = fmap(byu) if isinstance(byu, tuple) else byu
+        for yv, holders in byu.items():
+            expect('B.get(u=%d)' % yv, ad.do_FindU({'x': yv}), holders)
+        if self.after_call:
+            self.after_call('FreeReads', 'ok')
+        return n
+
     def agreed(self, belief, var):
         vals = [self.g.nodes[u][var] for u in belief]
         return vals[0] if all(v == vals[0] for v in vals[1:]) else None
@@ -808,15 +918,17 @@ class Driver:
         self.stats['behaviours'] += 1
         kinds = set()
         belief = self.closure({u0})
+        # each behaviour concentrates on one A id and one B id, so that read - modify - read again sequences on
+        # the same objects (the place where cache shortcuts go wrong) are frequent instead of one in 10^4
+        focus = (rng.choice((1, 2)), rng.choice((1, 2)))
+        last_kind = None
         try:
             for step in range(max_steps):
                 acts = self.actions(belief)
                 if not acts:
                     break
-                fresh = [k for k, per in acts.items() if any((u, v) not in g.visited for u, vs in per.items() for v in vs)]
-                pool = fresh if fresh and rng.random() < 0.8 else list(acts)
-                pool.sort()
-                key = rng.choice(pool)
+                key = self.choose(acts, focus, last_kind, rng)
+                last_kind = 'read' if key[0] in READ_OPS else 'control' if key[0] in CONTROL_OPS else 'write'
                 per = acts[key]
                 cands = [(u, v) for u, vs in per.items() for v in vs]
                 ev0 = g.nodes[cands[0][1]]['ev']
@@ -825,6 +937,10 @@ class Driver:
                     ad.project(cur_before, 'before-commit')
                     self.stats['projections'] += 1
                 pending = any(g.nodes[u]['pendNew'] or g.nodes[u]['pendDel'] or g.nodes[u]['cur'] != g.nodes[u]['tx'] for u in belief)
+                is_write = key[0] not in READ_OPS and key[0] not in CONTROL_OPS
+                if is_write and rng.random() < 0.6:
+                    # prime the caches (counts, loaded collections, query results) before the modification
+                    self.stats['free_reads'] = self.stats.get('free_reads', 0) + self.free_reads(ad, belief, key, 'before')
                 out, ret = ad.call(ev0)
                 if self.after_call:
                     self.after_call(key[0], out)
@@ -842,9 +958,23 @@ class Driver:
                 node = g.nodes[match[0][1]]
                 cur = self.agreed(belief, 'cur')
                 dbv = self.agreed(belief, 'db')
+                # objects that no longer exist in the session's view leave the registry (a later object with the
+                # same primary key is a new object)
+                if node['sess'] == 'open' and cur is not None:
+                    curA, curB = fmap(cur['A']), fmap(cur['B'])
+                    for (e, k) in list(w.registry):
+                        if not (curA if e == 'A' else curB)[k]['ex']:
+                            del w.registry[(e, k)]
+                elif node['sess'] != 'open':
+                    w.registry = {}
                 if key[0] in READ_OPS:
                     self.stats['reads_compared'] += 1
                     if pending:
+                        kinds.add('read-after-unflushed-write')
+                if is_write and out == 'ok':
+                    n = self.free_reads(ad, belief, key, 'after')
+                    self.stats['free_reads'] = self.stats.get('free_reads', 0) + n
+                    if n:
                         kinds.add('read-after-unflushed-write')
                 if out not in ('ok', 'Integrity'):
                     self.stats['failures_checked'] += 1
@@ -872,15 +1002,6 @@ class Driver:
                 elif cur is not None and rng.random() < 0.15 and self.can_project(belief):
                     ad.project(cur, 'random-point')
                     self.stats['projections'] += 1
-                # objects that no longer exist in the session's view leave the registry (a later object with the
-                # same primary key is a new object)
-                if node['sess'] == 'open' and cur is not None:
-                    curA, curB = fmap(cur['A']), fmap(cur['B'])
-                    for (e, k) in list(w.registry):
-                        if not (curA if e == 'A' else curB)[k]['ex']:
-                            del w.registry[(e, k)]
-                elif node['sess'] != 'open':
-                    w.registry = {}
         except Mismatch as m:
             self.found.append((m.category, m.what, list(trace)))
         except MachineryError:
